@@ -151,6 +151,16 @@ func c11Check(r *core.Run, m map[string]string, order []string, repeats int) {
 			return
 		}
 	}
+	// history: the caller overwrites the encoding it was handed; the mapping encodes as before
+	{
+		d1 := mp.Data()
+		for i := range d1 {
+			d1[i] = 0xA5
+		}
+		if d2 := mp.Data(); !bytes.Equal(d2, want) {
+			r.Violate("C11|encoding-changes-after-the-caller-overwrote-an-earlier-result|"+entry, fmt.Sprintf("%s(%d pairs): after the caller overwrote the slice Data() had returned, Data() gives %s, reference %s", entry, len(m), core.Hex(d2), core.Hex(want)), cs)
+		}
+	}
 	if re := (&back).Data(); !bytes.Equal(re, out) {
 		r.Violate("C11|reparse-reserialise-differs|"+shape, fmt.Sprintf("%s -> parse -> %s", core.Hex(out), core.Hex(re)), cs)
 	}
